@@ -10,7 +10,9 @@ recording stand-ins
     session._sock                                          (property on the session subclass)
     session._lock                                          (`LockProxy`)
     state.compression._compressobj                         (property + `ZProxy` around the zlib object)
-    the socket                                             (`SchedSocket`; `sendall` writes the data in TWO halves)
+    state.compression._decompressobj                       (property: the receive side, event-loop thread; kinds zd:inflate, zd:peek, zd:reset)
+    the socket                                             (`SchedSocket`; `sendall` writes the data in n chunks - n = 2 by default,
+                                                            case key `n` - and can be made to fail after k chunks, case key `fail`)
 
 Every access to one of them is a *sync step* `(tid, kind)`; everything else a thread does is
 thread-local.  Where each kind of access sits in the source is extracted from the AST of
@@ -76,7 +78,8 @@ class SyncMap:
                     child._parent = parent
             self._walk(name, tree, '<module>')
         need = {'rd:closing', 'rd:closed', 'wr:closing', 'wr:closed', 'wr:sent_close_time', 'rd:sock', 'wr:sock',
-                'use:sock', 'lock', 'send', 'z:compress', 'z:flush', 'z:reset', 'sockclose'}
+                'use:sock', 'lock', 'send', 'z:compress', 'z:flush', 'z:reset', 'sockclose',
+                'zd:inflate', 'zd:peek', 'zd:reset'}
         have = set().union(*self.at.values()) if self.at else set()
         for k in sorted(need - have):
             self.problems.append('no source location found for access kind %r' % k)
@@ -100,6 +103,16 @@ class SyncMap:
                     self._add(name, node.lineno, '%s:sock' % rw, fn)
             elif _is_self_attr(node, '_compressobj') and rw == 'wr':
                 self._add(name, node.lineno, 'z:reset', fn)
+            elif _is_self_attr(node, '_decompressobj'):
+                # the receive side (event-loop thread only): store = new decompressor, `.decompress(...)` = inflate,
+                # any other load (`.unused_data`) = a look at the object
+                par = getattr(node, '_parent', None)
+                if rw == 'wr':
+                    self._add(name, node.lineno, 'zd:reset', fn)
+                elif isinstance(par, ast.Attribute) and par.attr == 'decompress':
+                    self._add(name, node.lineno, 'zd:inflate', fn)
+                else:
+                    self._add(name, node.lineno, 'zd:peek', fn)
         if isinstance(node, ast.With):
             for item in node.items:
                 if _is_self_attr(item.context_expr, '_lock'):
@@ -397,6 +410,9 @@ class SchedSocket:
         pass
 
     def sendall(self, data):
+        """`sendall` as a sequence of n >= 1 `send()`s ("chunks"; n = run.nchunks, default 2): the first n-1 are
+        sync steps `w1`, the last one is `w2`; a yield point before each.  With n = 1 the `w1` step writes nothing.
+        An injected failure (run.fail_at[(tid, call)] = k) raises OSError once k chunks of this frame are out."""
         run, sched = self.run, self.run.sched
         data = bytes(data)
         if self.closed:
@@ -405,14 +421,35 @@ class SchedSocket:
         if tid is None:
             run.unscheduled_writes.append(data)
             return
-        h = len(data) // 2
-        sched.step('w1')
-        run.chunks.append((tid, sched.call[tid], 0, data[:h]))
-        # the write is split in two: a yield point in between, in both modes
-        if sched.mode == 'line':
-            sched.line_yield(tid)
+        call = sched.call[tid]
+        n = run.nchunks(tid, call)
+        m = n - 1
+        q = len(data) // n
+        kfail = run.fail_at.get((tid, call))
+        run.sendalls.append(dict(tid=tid, call=call, data=data, written=0, failed=False))
+        rec = run.sendalls[-1]
+
+        def boom(k):
+            rec['failed'] = True
+            raise OSError(32, 'simulated: sendall failed after %d chunk(s)' % k)
+        if m == 0:
+            sched.step('w1')
+            if kfail == 0:
+                boom(0)
+        for j in range(m):
+            sched.step('w1', check=(j == 0))
+            if kfail == j:
+                boom(j)
+            run.chunks.append((tid, call, 0, data[j * q:(j + 1) * q]))
+            rec['written'] += q
+            # a yield point between two chunks, in both modes
+            if sched.mode == 'line':
+                sched.line_yield(tid)
         sched.step('w2', check=False)
-        run.chunks.append((tid, sched.call[tid], 1, data[h:]))
+        if kfail == m:
+            boom(m)
+        run.chunks.append((tid, call, 1, data[m * q:]))
+        rec['written'] = len(data)
 
     def recv_into(self, buf, count):
         data = self.run.pending_recv
@@ -497,6 +534,25 @@ def _traced_deflate_class(base, run):
                 run.zcalls.append(dict(tid=tid, call=run.sched.call[tid], kind='reset', obj=run.zobj_serial(obj)))
             self.__dict__['_compressobj'] = obj
         _compressobj = property(_get, _set)
+
+        def _dget(self):
+            sched = run.sched
+            tid = sched.me()
+            if tid is not None:
+                kinds = sched.map.kinds(sys._getframe(1))
+                k = [x for x in ('zd:inflate', 'zd:peek') if x in kinds]
+                if len(k) == 1:
+                    sched.step(k[0])
+                else:
+                    f = sys._getframe(1)
+                    sched.problems.append('unmapped load of _decompressobj by thread %d at %s:%d' % (
+                        tid, os.path.basename(f.f_code.co_filename), f.f_lineno))
+            return self.__dict__['_decompressobj']
+
+        def _dset(self, obj):
+            run.sched.step('zd:reset')
+            self.__dict__['_decompressobj'] = obj
+        _decompressobj = property(_dget, _dset)
     return TracedDeflate
 
 
@@ -538,12 +594,14 @@ class ParkingSelector:
 # one run
 
 APP_CALLS = ('st1', 'st0', 'sb1', 'sb0', 'pi', 'po', 'cl')
-LOOP_CALLS = ('rp', 'rc', 'tk')
+LOOP_CALLS = ('rp', 'rc', 'tk', 'rm', 'rm2')
 
 
 def parse_call(tok):
     """`st1=<hex>` send_text(compress=True) | st0 | sb1 | sb0 | pi=<hex> | po=<hex> | cl=<code|N>,<hex>
-       loop thread: rp=<hex> (server Ping) | rc=<code|N>,<hex> (server Close) | tk (31 s of silence: auto-ping)"""
+       loop thread: rp=<hex> (server Ping) | rc=<code|N>,<hex> (server Close) | tk (31 s of silence: auto-ping)
+                    rm=<hex> (server Text message, COMPRESSED, one frame; <hex> = its UTF-8 text; needs z != 0)
+                    rm2=<hex> (the same in two fragments: Text FIN=0 RSV1=1, Continuation FIN=1)"""
     if tok == 'tk':
         return ('tk',)
     h, a = tok.split('=', 1)
@@ -574,6 +632,15 @@ class Run:
         self.pending_recv = None
         self.clock = world.Clock()
         self._zobjs = []
+        self.sendalls = []            # every sendall of a scheduled thread: dict(tid, call, data, written, failed)
+        self.n_default = 2
+        self.n_of = {}                # (tid, call) -> chunks
+        self.fail_at = {}             # (tid, call) -> k: the sendall raises once k chunks are out
+        self.sent_by_server = []      # texts (bytes) of the compressed messages the simulated server sends, in order
+        self.received = []            # texts (bytes) of the Text events the loop thread yielded, in order
+
+    def nchunks(self, tid, call):
+        return max(1, int(self.n_of.get((tid, call), self.n_default)))
 
     def zobj_serial(self, obj):
         """a stable number for a zlib object (id() values are reused after an object is freed)"""
@@ -592,6 +659,18 @@ def run_real(case):
     progs = [list(p) for p in case['progs']]
     mode = case.get('mode', 'sync')
     run = Run()
+    # the socket: `n` = chunks per sendall (an int, or {"t.c": n, "*": n}); `fail` = [[tid, call, k], ...]
+    nspec = case.get('n', 2)
+    if isinstance(nspec, dict):
+        run.n_default = int(nspec.get('*', 2))
+        for key, val in nspec.items():
+            if key != '*':
+                t_, c_ = key.split('.')
+                run.n_of[(int(t_), int(c_))] = int(val)
+    else:
+        run.n_default = int(nspec)
+    for t_, c_, k_ in case.get('fail', []):
+        run.fail_at[(int(t_), int(c_))] = int(k_)
     sched = Sched(mode, case['schedule'], len(progs))
     run.sched = sched
     sc = Scenario([], compress=z != 0)
@@ -600,6 +679,12 @@ def run_real(case):
         ext = b'Sec-WebSocket-Extensions: permessage-deflate\r\n'
     elif z == 2:
         ext = b'Sec-WebSocket-Extensions: permessage-deflate; client_no_context_takeover\r\n'
+    elif z == 3:
+        ext = b'Sec-WebSocket-Extensions: permessage-deflate; server_no_context_takeover\r\n'
+    elif z == 4:
+        ext = b'Sec-WebSocket-Extensions: permessage-deflate; client_no_context_takeover; server_no_context_takeover\r\n'
+    from refcodec import DeflatePeer
+    server = DeflatePeer(server_no_takeover=z in (3, 4))
     run.env = [('recv', sc.good_reply(ext))]
     loop_tids = [i for i, p in enumerate(progs) if is_loop_prog(p)]
     if len(loop_tids) > 1:
@@ -613,6 +698,16 @@ def run_real(case):
                 run.env.append(('recv', server_frame(8, close_payload(c[1], c[2]))))
             elif c[0] == 'tk':
                 run.env.append(('tick', 31))
+            elif c[0] in ('rm', 'rm2'):
+                if z == 0:
+                    raise ValueError('rm needs negotiated compression')
+                zdata = server.compress(c[1])
+                run.sent_by_server.append(c[1])
+                if c[0] == 'rm' or len(zdata) < 2:
+                    run.env.append(('recv', server_frame(1, zdata, rsv1=1)))
+                else:
+                    h = len(zdata) // 2
+                    run.env.append(('recv', server_frame(1, zdata[:h], fin=0, rsv1=1) + server_frame(0, zdata[h:])))
             else:
                 raise ValueError(tok)
 
@@ -712,6 +807,8 @@ def run_real(case):
                 for ev in gen:
                     if run.loop_events:
                         run.loop_events[-1].append(ev.name)
+                    if ev.name == 'text':
+                        run.received.append(ev.text.encode('utf-8'))
             return body
 
         fns, starters = [], []
@@ -736,6 +833,10 @@ def run_real(case):
             deflate=(None if not ws.state.compression else dict(reset=bool(ws.state.compression.reset_compress),
                                                                wbits=ws.state.compression.compress_wbits)),
             yields=sched.yields,
+            sendalls=[dict(tid=w['tid'], call=w['call'], data=w['data'].hex(), written=w['written'], failed=w['failed'])
+                      for w in run.sendalls],
+            server_sent=[b.hex() for b in run.sent_by_server],
+            received=[b.hex() for b in run.received],
         )
         for tid in loop_tids:
             out['results'][tid] = ['+'.join(e) if e else '-' for e in run.loop_events]
